@@ -1,23 +1,34 @@
 /-
-  ftvalid — second driver: runs the same session protocol as ftdriver (family tag `S`) and, after
-  every line, evaluates the *sound Boolean checkers of the theorem hypotheses* on the model state
-  (`validB s = true → St.Valid s`, proved in FtProofs/R2BLemmas.lean). The harness uses it to
-  measure that the states reached by real sessions satisfy the hypotheses the theorems assume.
-  Output per line:  `<outcome> V=<0|1> linOn=<0|1>`.
+  ftvalid — second driver: runs the same session protocol as ftdriver (family tag `S`) and, around
+  every line, evaluates the *sound Boolean checkers of the theorem hypotheses* on the model state:
+    V = `R2B.validB s'`      (sound for `St.Valid`,  FtProofs/R2BLemmas.lean)
+    I = `R4A.invBits s'`     (eight clauses of the bundle invariant `R3D.Inv`; all 1 ⇒ `Inv s'`,
+                              `R4A.invB_sound`), order: valid keys edgeReg edgeIou nodeReg nodeVal segOK misc
+    P = `R4A.opOKB s op`     (the operation's argument precondition `R3D.OpPre` at the state where it
+                              is applied; `-` for lines that are not an `Op`: init, reg, delnodepx)
+  The harness uses it to measure that the states reached by real sessions satisfy what the
+  whole-history theorems (`C02_session_valid`, `C03_reach`, `C01_user_all`) assume.
+  Output per line:  `<outcome> V=<0|1> I=<8 bits> P=<0|1|-> linOn=<0|1>`.
 -/
 import FtModel
 import FtProofs.R2BLemmas
+import FtProofs.R4ALemmas
 open Ft
+
+def bits (l : List Bool) : String := String.join (l.map (fun b => if b then "1" else "0"))
 
 partial def loopV (hin hout : IO.FS.Stream) (s : St) : IO Unit := do
   let line ← hin.getLine
   if line.isEmpty then return ()
   match tokens line with
   | "S" :: rest =>
+    let p := match (SessDrv.opP.run rest) with
+      | some (op, []) => if Ft.R4A.opOKB s op then "1" else "0"
+      | _ => "-"
     let (s', out) := SessDrv.step s rest
     let head := (out.splitOn " | ").headD "bad-op"
     let v := if Ft.R2B.validB s' then "1" else "0"
-    hout.putStrLn s!"{head} V={v} linOn={if s'.linOn then "1" else "0"}"
+    hout.putStrLn s!"{head} V={v} I={bits (Ft.R4A.invBits s')} P={p} linOn={if s'.linOn then "1" else "0"}"
     loopV hin hout s'
   | _ =>
     hout.putStrLn "bad-op"
